@@ -11,6 +11,7 @@ mod c05;
 mod c06;
 mod c07;
 mod c08;
+mod c11;
 mod c14;
 mod c15;
 mod c16;
@@ -38,6 +39,7 @@ fn gen(prop: &str, seed: u64, n: usize, tier: &str) -> Option<Vec<Case>> {
         "C06" => c06::gen(seed, n, tier),
         "C07" => c07::gen(seed, n, tier),
         "C08" => c08::gen(seed, n, tier),
+        "C11" => c11::gen(seed, n, tier),
         "C14" => c14::gen(seed, n, tier),
         "C15" => c15::gen(seed, n, tier),
         "C16" => c16::gen(seed, n, tier),
@@ -57,6 +59,7 @@ fn run(prop: &str, c: &Case) -> Option<Case> {
         "C06" => c06::run(c),
         "C07" => c07::run(c),
         "C08" => c08::run(c),
+        "C11" => c11::run(c),
         "C14" => c14::run(c),
         "C15" => c15::run(c),
         "C16" => c16::run(c),
@@ -72,6 +75,7 @@ fn judge(prop: &str, c: &Case) -> Vec<String> {
         "C02" => c02::judge(c, &c.outs),
         "C03" => c03::judge(c, &c.outs),
         "C06" => c06::judge(c, &c.outs),
+        "C11" => c11::judge(c, &c.outs),
         "C14" => c14::judge(c, &c.outs),
         "C15" => c15::judge(c, &c.outs),
         "C16" => c16::judge(c, &c.outs),
